@@ -91,6 +91,7 @@ def make_frames(ctx, setname):
     fj = json.load(open(fp))
     if fj["tool_errors"]:
         raise ToolError("frame serializer disagrees with libzstd: %s" % fj["tool_errors"][:3])
+    make_frames.dicts = fj.get("dicts", [])
     return fp, fj["frames"]
 
 
@@ -102,7 +103,7 @@ def run_config(ctx, name, setname, params, cuts="full", invariants=None, what=""
         # the executor indexes frames by position: write a filtered frame file
         frames = [frames[i] for i in keep]
         fp2 = ctx.path("frames_%s_%s.json" % (setname, name))
-        json.dump({"frames": frames, "tool_errors": []}, open(fp2, "w"))
+        json.dump({"frames": frames, "tool_errors": [], "dicts": getattr(make_frames, "dicts", [])}, open(fp2, "w"))
         fp = fp2
     if cuts == "full":
         cutsets = [[f["len"]] for f in frames]
